@@ -7,7 +7,7 @@
 (* wrappers) must be behaviours of OpsCache; the property invariants are   *)
 (* evaluated in every state reached.                                       *)
 (*                                                                         *)
-(* Trace header: [level, inst, mode, scr, dyn, v, seed, exact, driven, ev]. *)
+(* Trace header: [level, inst, mode, scr, dyn, v, seed, form, v0, exact, driven, ev]. *)
 (* exact = TRUE: the logged (quantised) matrix entries are bound to the    *)
 (* model's matrices; otherwise only the abstract flags are bound.          *)
 (***************************************************************************)
@@ -23,14 +23,17 @@ Ev == T.ev[l]
 
 TInit == /\ tid \in 1..Len(Batch) /\ l = 1
          /\ cfg = [inst |-> Batch[tid].inst, mode |-> Batch[tid].mode, scr |-> Batch[tid].scr,
-                   dyn |-> Batch[tid].dyn, v |-> Batch[tid].v, seed |-> Batch[tid].seed]
+                   dyn |-> Batch[tid].dyn, v |-> Batch[tid].v, seed |-> Batch[tid].seed,
+                   form |-> Batch[tid].form, v0 |-> Batch[tid].v0]
          /\ InitCommon
          /\ pc = IF Batch[tid].level = "ops" THEN "ops" ELSE "ctor"
 
 IsEv(e) == l <= Len(T.ev) /\ Ev.ev = e /\ l' = l + 1 /\ UNCHANGED tid
 Silent(A) == A /\ UNCHANGED <<tid, l>>
 
-HeldEqualsBuild(L, G, q) == L = BuildLap(M, q, Eff) /\ G = BuildGrad(M, q)
+\* the logged equal/unequal flags compare with a freshly constructed MeshOperators that gets the same fixed_sites
+\* / fix_psi as the one in use: the rows the build pins (mechanism), not the rows that are to be pinned (property)
+HeldEqualsBuild(L, G, q) == L = BuildLap(M, q, BuildFixed) /\ G = BuildGrad(M, q)
 PinClass(L) == IF FixedSites = {} THEN "na"
                ELSE IF \A i \in FixedSites : IsIdentityRow(M, L, i) THEN "identity"
                ELSE IF \A i \in FixedSites : ~IsIdentityRow(M, L, i) THEN "plain"
@@ -50,7 +53,7 @@ TOpsCall ==
   /\ UNCHANGED <<cfg, stepvars>>
   /\ T.exact => /\ Ev.lap = LapSeq(M, lap')
                 /\ Ev.grad = GradSeq(M, grad')
-  /\ Ev.lap_eq = (lap' = BuildLap(M, linkQ', Eff))
+  /\ Ev.lap_eq = (lap' = BuildLap(M, linkQ', BuildFixed))
   /\ Ev.grad_eq = (grad' = BuildGrad(M, linkQ'))
   /\ OpsObs(lap', grad')
 
@@ -69,7 +72,7 @@ TLinks == /\ IsEv("links")
           /\ OpsObs(lap', grad')
 
 TEuler == /\ IsEv("euler") /\ Euler(Ev.retried)
-          /\ Ev.fresh = OpsFresh
+          /\ Ev.fresh = (linkQ = LatestQ /\ HeldEqualsBuild(lap, grad, LatestQ))
           /\ OpsObs(lap, grad)
           /\ Ev.term = tv'
 
